@@ -163,12 +163,27 @@ func defaultModelTerms(g *ObGroup) []*Term {
 		names = append(names, n)
 	}
 	sortStrings(names)
+	have := map[int]bool{}
 	for _, n := range names {
 		s := vars[n]
 		if s.Kind == SArray {
 			continue
 		}
-		out = append(out, Var(n, s))
+		v := Var(n, s)
+		have[v.id] = true
+		out = append(out, v)
+	}
+	// contents of input slices / strings (first elements) for the replay
+	for _, o := range g.Instances {
+		if o.Ctx != nil && o.Ctx.Fn != nil && len(o.Ctx.ParamVals) > 0 {
+			for _, t := range o.Ctx.inputLeafTerms() {
+				if !have[t.id] {
+					have[t.id] = true
+					out = append(out, t)
+				}
+			}
+			break
+		}
 	}
 	return out
 }
@@ -181,5 +196,3 @@ func sortStrings(s []string) {
 	}
 }
 
-func cmdCheck(args []string) int  { fmt.Println("not yet"); return 3 }
-func cmdReplay(args []string) int { fmt.Println("not yet"); return 3 }
